@@ -248,7 +248,7 @@ def gen(rng, depth, kf=False):
     a = gen(rng, depth - 1, kf)
     b = gen(rng, depth - 1, kf)
     if op in "/%" and rng.random() < 0.75:
-        b = ("lit", rng.choice(["1", "2", "3", "7", "2u", "3L", "5UL", "0x10", "2.0", "0.5f", "-1" if False else "1"]))
+        b = ("lit", rng.choice(["1", "2", "3", "7", "2u", "3L", "5UL", "0x10", "2.0", "0.5f"]))
         if rng.random() < 0.1:
             b = ("un", "-", ("lit", "1"))      # INT_MIN / -1, INT_MIN % -1
     if op in ("<<", ">>") and rng.random() < 0.8:
@@ -393,6 +393,15 @@ def guard_tags(model, cases):
     return [set() if t == "-" else set(t.split(",")) for t in tags]
 
 
+def impl_env():
+    """sanitizer reports without symbolization (a report then costs milliseconds instead of seconds); the driver maps
+    UBSan's exit code / SIGFPE to `R UB` itself"""
+    env = C.lib_env("asan")
+    env["UBSAN_OPTIONS"] = "print_stacktrace=0:halt_on_error=1:exitcode=98"
+    env["ASAN_OPTIONS"] = env["ASAN_OPTIONS"] + ":symbolize=0"
+    return env
+
+
 class Tie(C.Differential):
     def eval(self, lines, parallel=True):
         I, R, S = super().eval(lines, parallel=parallel)
@@ -533,7 +542,7 @@ def run(run, tier, seed, replay_case=None):
     # drop duplicates, keep order
     seen = set()
     cases = [c for c in cases if not (c in seen or seen.add(c))]
-    env = C.lib_env("asan")
+    env = impl_env()
     D = Tie(run, PROP, [impl], model, env, signatures=SIGNATURES,
             model_desc="coq/C14/Model.v (fixed) vs src/types/primitive.cpp + expr/*Node.cpp")
     I, R, S = D.eval(cases)
